@@ -327,3 +327,40 @@ def echo_round(sim, ch, sch, n1, n2):
             break
         back += x
     return got == d1 and back == d2
+
+
+class ByzantinePacketizer(ObservingPacketizer):
+    """Adversary-side packetizer: a real one (framing, keys, sequence numbers
+    stay valid) whose outgoing plaintext messages pass through `mutate_out`
+    and whose incoming messages can be swallowed by `filter_in`.  Only ever
+    given to the ADVERSARY transport; the victim runs unmodified code."""
+
+    mutate_out = None    # fn(packetizer, payload bytes) -> list of payload bytes to send instead
+    filter_in = None     # fn(packetizer, ptype, payload bytes) -> True to swallow
+
+    def send_message(self, data):
+        f = self.mutate_out
+        if f is None:
+            return ObservingPacketizer.send_message(self, data)
+        from paramiko import Message
+        for q in f(self, data.asbytes()):
+            m = Message()
+            m.add_bytes(q)
+            ObservingPacketizer.send_message(self, m)
+
+    def read_message(self):
+        while True:
+            ptype, m = ObservingPacketizer.read_message(self)
+            f = self.filter_in
+            if f is not None and f(self, ptype, bytes([ptype]) + m.asbytes()):
+                continue
+            return ptype, m
+
+
+def byzantine_packetizer(side, log, mutate_out=None, filter_in=None):
+    d = {"obs_side": side, "obs_log": log}
+    if mutate_out is not None:
+        d["mutate_out"] = staticmethod(mutate_out)
+    if filter_in is not None:
+        d["filter_in"] = staticmethod(filter_in)
+    return type("Byz_" + side, (ByzantinePacketizer,), d)
